@@ -2,6 +2,7 @@
 use crate::engine::{finish, guarded, par_blocks, RunInfo, Stats, Tier};
 use crate::world::app::Scratch;
 use geo::Centroid;
+use routee_compass::app::compass::config::builders::InputPluginBuilder;
 use routee_compass::app::compass::config::frontier_model::road_class::road_class_parser::RoadClassParser;
 use routee_compass::plugin::input::default::edge_rtree::edge_rtree_input_plugin::EdgeRtreeInputPlugin;
 use routee_compass::plugin::input::default::vertex_rtree::plugin::RTreePlugin;
@@ -92,11 +93,28 @@ fn check_vertex(scratch: &Scratch, mask: u32, tier: Tier, st: &mut Stats) {
         if tier == Tier::Quick && ti != 0 && (ti + mask as usize) % 4 != 0 {
             continue;
         }
-        let plugin = match RTreePlugin::new(&file, tol.as_ref().map(|t| Distance::new(t.0)), tol.as_ref().map(|t| t.1)) {
-            Ok(p) => p,
-            Err(e) => {
-                st.violation("vertex_rtree", "builds", mask as u64, || e.to_string(), || json!({"vertices": verts}));
-                continue;
+        // built the way the application builds it: by the plugin builder from its configuration (tolerance and unit as
+        // configuration values); the first tolerance of every set also through the constructor
+        let plugin: std::sync::Arc<dyn InputPlugin> = if ti == 1 {
+            match RTreePlugin::new(&file, tol.as_ref().map(|t| Distance::new(t.0)), tol.as_ref().map(|t| t.1)) {
+                Ok(p) => std::sync::Arc::new(p),
+                Err(e) => {
+                    st.violation("vertex_rtree", "builds", mask as u64, || e.to_string(), || json!({"vertices": verts}));
+                    continue;
+                }
+            }
+        } else {
+            let mut conf = json!({"type": "vertex_rtree", "vertices_input_file": file.to_str().unwrap()});
+            if let Some((t, u)) = tol {
+                conf["distance_tolerance"] = json!(t);
+                conf["distance_unit"] = json!(u.to_string());
+            }
+            match (routee_compass::plugin::input::default::vertex_rtree::builder::VertexRTreeBuilder {}).build(&conf) {
+                Ok(p) => p,
+                Err(e) => {
+                    st.violation("vertex_rtree.builder", "builds", mask as u64, || e.to_string(), || json!({"vertices": verts, "configuration": conf}));
+                    continue;
+                }
             }
         };
         let tol_name = if tol.is_some() { "with_tolerance" } else { "no_tolerance" };
@@ -280,15 +298,27 @@ fn check_edges(scratch: &Scratch, si: usize, tier: Tier, st: &mut Stats) {
         if tier == Tier::Quick && ti != 0 && (ti + si) % (if si < 6 { 4 } else { 8 }) != 0 {
             continue;
         }
-        let plugin = match guarded(|| {
-            EdgeRtreeInputPlugin::new(
-                Some(cfile.to_str().unwrap().to_string()),
-                Some(rfile.to_str().unwrap().to_string()),
-                gfile.to_str().unwrap().to_string(),
-                tol.as_ref().map(|t| Distance::new(t.0)),
-                tol.as_ref().map(|t| t.1),
-                parser.clone(),
-            )
+        let plugin: std::sync::Arc<dyn InputPlugin> = match guarded(|| -> Result<std::sync::Arc<dyn InputPlugin>, String> {
+            if ti == 1 {
+                EdgeRtreeInputPlugin::new(
+                    Some(cfile.to_str().unwrap().to_string()),
+                    Some(rfile.to_str().unwrap().to_string()),
+                    gfile.to_str().unwrap().to_string(),
+                    tol.as_ref().map(|t| Distance::new(t.0)),
+                    tol.as_ref().map(|t| t.1),
+                    parser.clone(),
+                )
+                .map(|p| std::sync::Arc::new(p) as std::sync::Arc<dyn InputPlugin>)
+                .map_err(|e| e.to_string())
+            } else {
+                // the application's way: the builder and its configuration
+                let mut conf = json!({"type": "edge_rtree", "geometry_input_file": gfile.to_str().unwrap(), "road_class_input_file": cfile.to_str().unwrap(), "vehicle_restriction_input_file": rfile.to_str().unwrap(), "road_class_parser": {"mapping": {"even": 0, "odd": 1}}});
+                if let Some((t, u)) = tol {
+                    conf["distance_tolerance"] = json!(t);
+                    conf["distance_unit"] = json!(u.to_string());
+                }
+                (routee_compass::plugin::input::default::edge_rtree::edge_rtree_input_plugin_builder::EdgeRtreeInputPluginBuilder {}).build(&conf).map_err(|e| e.to_string())
+            }
         }) {
             Ok(Ok(p)) => p,
             Ok(Err(e)) => {
@@ -403,7 +433,7 @@ pub fn run(tier: Tier) -> i32 {
     finish(
         &info,
         st,
-        "state = one vertex set (subsets of a 3x3 lattice: sizes 1-4 and 7-9 quick, all 511 thorough) or edge set (every single edge and every pair of a 14-edge pool, sets of 7-14 records, all 14 with one bent edge; four geometry shapes: straight, slight bend, hairpin, detour; class table and one restricted edge); transition = one real plugin invocation for one query point of a 7x7 lattice reaching beyond the network (+3 far/odd points), with and without destination, under one tolerance (none, or 100/700/1300/5000 m expressed in m/km/mi/ft) and one road-class/vehicle filter; oracle = exhaustive scan under the plugin's own measure (squared f32 coordinate distance; to the linestring centroid for edges), tolerance by the reference great-circle distance (double precision); non-trivial = more than one candidate",
+        "state = one vertex set (subsets of a 3x3 lattice: sizes 1-4 and 7-9 quick, all 511 thorough) or edge set (every single edge and every pair of a 14-edge pool, sets of 7-14 records, all 14 with one bent edge; four geometry shapes: straight, slight bend, hairpin, detour; class table and one restricted edge); transition = one real plugin invocation (plugin built by its builder from configuration values, one tolerance per set through the constructor) for one query point of a 7x7 lattice reaching beyond the network (+3 far/odd points), with and without destination, under one tolerance (none, or 100/700/1300/5000 m expressed in m/km/mi/ft) and one road-class/vehicle filter; oracle = exhaustive scan under the plugin's own measure (squared f32 coordinate distance; to the linestring centroid for edges), tolerance by the reference great-circle distance (double precision); non-trivial = more than one candidate",
         true,
         json!({"vertex_sets": masks.len(), "edge_sets": n_sets, "query_points": query_points().len(), "tolerances": tolerances().len(), "filters": 8}),
         vec![
